@@ -2,6 +2,7 @@
 import math, gens, common
 from common import Failure
 from props._base import *  # noqa
+TRUSTED_BASE = TRUSTED_BASE + ['tools/py2lean.py (syntax-directed translation of the Python source into A5/Gen/Src.lean, regenerated every run) and the operator semantics of A5/Model/PySem.lean — both exercised every run by executing the translated source (lean/SrcMain.lean) against the implementation on the same ops, negative ints included', 'kernel-checked bridge theorems (A5/Proofs/SrcBridge*.lean, A5/Props/SrcTie/*.lean): translated source = hand-written model for EVERY non-negative id / every list of ids / every int argument']
 from refids import all_ids, num_cells, random_valid_id, ref_res, MAXV
 
 LEAN_MODULES = ['A5.Props.C20', 'A5.Props.SrcTie.Tree']
@@ -10,11 +11,13 @@ LEVEL = 'proof'
 EXPLANATION = ('Lean theorems: get_num_cells(r) = size of the duplicate-free expansion of the world cell (all r <= 29); get_num_cells(b) = get_num_cells(a)*get_num_children(a,b) = sum over level a; '
                'get_num_children(a,b) = len(cell_to_children(c,b)) for every cell (symbolic S) and every pair; the implementation\'s closed forms and cell_area bit patterns equal the model on the whole '
                'finite domain (tables produced by calling the real functions, re-decided by the kernel each run); cell_area(r)*get_num_cells(r) == authalic area exactly in IEEE binary64 for r = 0..30 and '
-               'cell_area strictly decreasing on -1..30 (kernel float evaluation, complete case analysis).')
+               'cell_area strictly decreasing on -1..30 (kernel float evaluation, complete case analysis).'
+               " SOURCE-LEVEL TIE (every run): the functions of this property's cone are translated from /repo's current source by tools/py2lean.py into Lean definitions (A5/Gen/Src.lean); bridge theorems prove, for every input (no sampling), that the translated definitions compute exactly what the hand-written model computes, and the headline theorems are restated about the translated source (`*_of_source`). A source change changes the generated definitions and the kernel re-checks the bridges; a construct outside the translated subset (decorators, global state, …) is reported as a broken tie.")
 RULE = 'ops: ncells/area for r = -4..35, nchildren for all pairs -3..32; search: counts against the enumerated hierarchy for low levels and against cell_to_children lengths for sampled cells'
-ASSUMPTIONS = ['sampled agreement of cell_to_children with the model (C06) extends to all inputs; IEEE-754 binary64 arithmetic of the host equals Lean\'s Float model']
-LEVEL_TEXT = 'machine-checked proof (Lean 4 kernel): algebraic theorems for all resolutions plus kernel-evaluated exhaustive tables (counts, float areas) regenerated from the source every run'
-TECHNIQUE = 'Lean 4 proof + exhaustive generated tables re-decided by the kernel (decide +kernel incl. IEEE float arithmetic)'
+ASSUMPTIONS = ['the translator tools/py2lean.py and A5/Model/PySem.lean represent CPython faithfully on the integer core (validated every run); IEEE-754 binary64 arithmetic of the host equals Lean\'s Float model (cell_area)']
+LEVEL_TEXT = 'machine-checked proof (Lean 4 kernel): algebraic theorems for all resolutions plus kernel-evaluated exhaustive tables (counts, float areas) regenerated from the source every run; the count functions and cell_to_children are tied to the source by per-run translation + bridge theorems'
+TECHNIQUE = 'Lean 4 proof + exhaustive generated tables re-decided by the kernel (decide +kernel incl. IEEE float arithmetic) + source translated to Lean each run (py2lean) with bridge theorems Src = Model for all inputs'
+LEVEL_NOTE = 'trusted: Lean kernel + standard axioms; gen_tables.py; py2lean.py + PySem.lean (translator and Python operator semantics, executed against the implementation every run); CPython int/list semantics as modelled there'
 DESIGN_REF = 'DESIGN.md §3 C20'
 
 def gen_ops(tier, rng):
